@@ -583,6 +583,162 @@ def _overridden_witness(direction):
 
 def all_obligations(pid):
     obs = []
-    for f in (lambda: verify_option(pid), lambda: verify_iter(pid), lambda: verify_overridden(pid, "serialize"), lambda: verify_overridden(pid, "deserialize")):
+    for f in (lambda: verify_option(pid), lambda: verify_iter(pid), lambda: verify_overridden(pid, "serialize"), lambda: verify_overridden(pid, "deserialize"),
+              lambda: verify_registry_get(pid)):
         obs += f()
     return obs
+
+
+# ------------------------------------------------------------------------------------------- S7
+def verify_registry_get(pid, path="/repo/mashumaro/core/meta/types/common.py"):
+    """common.py:Registry.get(spec) - what every resolution function is handed:
+         spec.annotated_type' = builder.get_real_type(field, spec.type)                      if spec.type is Annotated (else untouched)
+         spec.type'           = builder.get_real_type(field, origin(spec.type) | spec.type)   (type parameters resolved, Annotated stripped)
+       then the registered creators are tried in registration order with that spec (first non-None wins; loop body
+       as a Hoare triple, first-match rule), and UnserializableField is raised when none applies."""
+    import mashumaro.core.meta.types.common as C
+    from mashumaro.exceptions import UnserializableField
+
+    unit = "common.py:Registry.get"
+    oid = f"{pid}.S7[Registry.get]/spec-normalised"
+    try:
+        fn, _ = _method(path, "Registry", "get")
+    except LookupError as e:
+        return [_ob(oid, "undecided", unit, str(e))]
+    loops = [s for s in fn.body if isinstance(s, ast.For)]
+    if len(loops) != 1 or not isinstance(loops[0].target, ast.Name) or ast.unparse(loops[0].iter) != "self._registry":
+        return [_ob(oid, "undecided", unit, "Registry.get is no longer `normalise spec; for creator in self._registry: ...; raise`")]
+    loop = loops[0]
+    eng = pysym.Engine()
+    V = eng.V
+    spec_t, self_t = eng.fresh("spec"), eng.fresh("self")
+    attr = lambda o, n: eng.func(f"attr!{n}", V, V)(o)  # noqa
+
+    def tm_attr(ex, base, name, node, st, ctx):
+        if isinstance(base, Tm) and z3.eq(base.t, spec_t):
+            ov = st.env.get("__spec__", {})
+            if name in ov:
+                return ov[name]
+        return None
+
+    def attr_store(ex, tgt, v, st):
+        if isinstance(tgt.value, ast.Name) and tgt.value.id == "spec":
+            st.env["__spec__"] = dict(st.env.get("__spec__", {}), **{tgt.attr: v})
+            return [st]
+        raise pysym.NotInSubset("attribute store on something other than spec", tgt)
+
+    class Ex(pysym.Executor):
+        def st_For(self, s, st):
+            if s is loop:
+                return [(st, ("reached-loop",))]
+            return super().st_For(s, st)
+
+    def mkex():
+        ex = Ex(eng, dict(C.__dict__), hooks={"tm_attr": tm_attr, "attr_store": attr_store})
+        ex.assume_hasattr = True
+        ex.nonraising_prefixes = ("get_real_type", "add_type_modules")
+        ex.nonraising.add(_const_key(C.is_annotated))
+        ex.nonraising.add(_const_key(C.get_type_origin))
+        return ex
+
+    ex = mkex()
+    st0 = pysym.State({"self": Tm(self_t), "spec": Tm(spec_t)}, [])
+    try:
+        res = ex.exec_block(fn.body, st0)
+    except pysym.NotInSubset as e:
+        return [_ob(oid, "undecided", unit, f"outside the verified subset: {e}")]
+    prover = pysym.Prover(eng, 10000)
+    t0 = attr(spec_t, "type")
+    b0 = attr(spec_t, "builder")
+    name0 = attr(attr(spec_t, "field_ctx"), "name")
+    ann = eng.truth(Call(_const_key(C.is_annotated), pysym._short(C.is_annotated), [Tm(t0)]))
+    grt = lambda t: eng.term(Call(("meth", "get_real_type"), "meth_get_real_type", [Tm(b0), Tm(name0), Tm(t)]))  # noqa
+    origin = eng.term(Call(_const_key(C.get_type_origin), pysym._short(C.get_type_origin), [Tm(t0)]))
+    bad = []
+    live = 0
+    for st, sig in res:
+        pc = st.pc + st.hyps
+        if prover.sat(pc)[0] == z3.unsat:
+            continue
+        live += 1
+        if sig is None or sig[0] != "reached-loop":
+            bad.append(f"a path leaves before the creators are tried: {sig!r}"[:160])
+            continue
+        ov = st.env.get("__spec__", {})
+        is_ann = prover.prove("a", pc, ann).status == "proved"
+        not_ann = prover.prove("a", pc, z3.Not(ann)).status == "proved"
+        if not (is_ann or not_ann):
+            bad.append("a path does not decide is_annotated(spec.type)")
+            continue
+        want_type = grt(origin) if is_ann else grt(t0)
+        if "type" not in ov or prover.prove("t", pc, eng.term(ov["type"]) == want_type).status != "proved":
+            bad.append("spec.type handed to the creators is not the real type (type parameters resolved, Annotated stripped) of the field's annotation")
+        if is_ann:
+            if "annotated_type" not in ov or prover.prove("t", pc, eng.term(ov["annotated_type"]) == grt(t0)).status != "proved":
+                bad.append("spec.annotated_type (the alias key) is not the Annotated annotation with its type parameters resolved")
+        elif "annotated_type" in ov:
+            bad.append("spec.annotated_type is set for a type that is not Annotated")
+        extra = set(ov) - {"type", "annotated_type"}
+        if extra:
+            bad.append(f"unexpected stores into spec: {sorted(extra)}")
+    obs = [_ob(oid, "undecided" if not live else ("refuted" if bad else "proved"), unit, "; ".join(sorted(set(bad))), paths=live, witness=_registry_witness() if bad else None)]
+    # loop body + fall-through
+    ex = mkex()
+    creator = eng.fresh("creator")
+    st0 = pysym.State({"self": Tm(self_t), "spec": Tm(spec_t), loop.target.id: Tm(creator)}, [])
+    oid2 = f"{pid}.S7[Registry.get]/first-creator-wins"
+    try:
+        res = ex.exec_block(loop.body, st0)
+        tail = fn.body[fn.body.index(loop) + 1:]
+        res_tail = mkex().exec_block(tail, pysym.State({"self": Tm(self_t), "spec": Tm(spec_t)}, []))
+    except pysym.NotInSubset as e:
+        return obs + [_ob(oid2, "undecided", unit, f"outside the verified subset: {e}")]
+    out = eng.term(Call(("dyn",), "dyncall", [Tm(creator), Tm(spec_t)]))
+    none = eng.const(None)
+    bad = []
+    for st, sig in res:
+        pc = st.pc + st.hyps
+        if prover.sat(pc)[0] == z3.unsat:
+            continue
+        if sig is None:
+            if prover.prove("b", pc, out == none).status != "proved":
+                bad.append("a creator's non-None expression is skipped")
+        elif sig[0] == "return":
+            if prover.prove("b", pc, z3.And(out != none, eng.term(sig[1]) == out)).status != "proved":
+                bad.append("an iteration returns something other than the creator's non-None expression")
+        elif sig[0] == "raise" and getattr(sig[1], "cls", None) is None:
+            pass  # the creator itself raised (propagates)
+        else:
+            bad.append(f"loop body escapes: {sig!r}"[:160])
+    for st, sig in res_tail:
+        if not (sig is not None and sig[0] == "raise" and getattr(sig[1], "cls", None) is not None and sig[1].cls.o is UnserializableField):
+            bad.append("when no creator applies the function does not raise UnserializableField")
+    obs.append(_ob(oid2, "refuted" if bad else "proved", unit + " (loop body + fall-through; first-match rule)", "; ".join(sorted(set(bad)))))
+    return obs
+
+
+def _registry_witness():
+    """replay: the alias key of a generic field must be the specialised annotation"""
+    from dataclasses import dataclass
+    from datetime import date
+    from typing import Annotated, Generic, TypeVar
+
+    from mashumaro import DataClassDictMixin
+    from mashumaro.config import BaseConfig
+
+    T = TypeVar("T")
+    try:
+        GB = dataclass(pytypes_new_class("GB", (Generic[T], DataClassDictMixin), {"__annotations__": {"x": Annotated[T, "tag"]}}))
+        C1 = dataclass(pytypes_new_class("C1", (GB[date],), {"Config": type("Config", (BaseConfig,), {"serialization_strategy": {Annotated[date, "tag"]: {"serialize": lambda v: "ALIAS"}}})}))
+        got = C1(date(2020, 1, 2)).to_dict()["x"]
+        if got != "ALIAS":
+            return {"confirmed": True, "input": "class C1(GB[date]) with GB.x: Annotated[T, 'tag'] and a strategy registered for Annotated[date, 'tag']", "why": f"to_dict()['x'] = {got!r}, the alias-key registration was not applied"}
+    except Exception as e:  # noqa
+        return {"confirmed": True, "input": "generic Annotated alias schema", "why": f"{type(e).__name__}: {str(e)[:200]}"}
+    return None
+
+
+def pytypes_new_class(name, bases, ns):
+    import types as _t
+
+    return _t.new_class(name, bases, {}, lambda d: d.update(ns))
